@@ -67,6 +67,49 @@ fn run_format(cfg: &Cfg, index: u64, stats: &mut Stats) {
                 if case.options.layout == 0 && case.options.width <= 40 {
                     t.push("preserve-at-width<=40".to_string());
                 }
+                // the input itself, for findings that are recorded by their specific input
+                t.push(format!("input:{:016x}", crate::util::rng::hash64(input.as_bytes())));
+                // an experiment on the input, for the open finding "a redundant group around a single atom is dropped by
+                // the first pass, but punning and line breaking were decided as if it were there": the same source
+                // without such groups (same desugared term) formats to a fixed point
+                if signature.starts_with("formatting-not-idempotent") {
+                    if let Some(stripped) = strip_atom_groups(&input) {
+                        // (a source that parses but does not desugar is compared by its desugaring error)
+                        let same = match (e2::desugared(&input), e2::desugared(&stripped)) {
+                            | (Ok(a), Ok(b)) => a == b,
+                            | _ => false,
+                        };
+                        if same {
+                            if let Ok(Ok(first)) = case.format(&stripped) {
+                                if matches!(case.format(&first), Ok(Ok(second)) if second == first) {
+                                    t.push("fixed-point-without-groups-around-single-atoms".to_string());
+                                }
+                            }
+                        }
+                    }
+                }
+                // the redundant pair that the parenthesis leg added sits around a single atom
+                if signature == "parenthesis-variant-formats-differently" {
+                    if let Some(variant) = extra["variant_input"].as_str() {
+                        let code = |s: &str| -> Vec<String> { scan::scan(s).iter().filter(|t| t.is_code()).map(|t| s[t.start..t.end].to_string()).collect() };
+                        let plain = |s: &str| code(&strip_atom_groups(s).unwrap_or_else(|| s.to_string()));
+                        // (groups around groups around an atom: strip until nothing changes)
+                        let settle = |s: &str| -> Vec<String> {
+                            let mut current = s.to_string();
+                            for _ in 0..4 {
+                                match strip_atom_groups(&current) {
+                                    | Some(next) => current = next,
+                                    | None => break,
+                                }
+                            }
+                            code(&current)
+                        };
+                        let _ = plain;
+                        if code(variant) != code(&input) && settle(variant) == settle(&input) {
+                            t.push("variant-adds-a-group-around-a-single-atom".to_string());
+                        }
+                    }
+                }
                 t
             },
             generator: "format".into(),
@@ -306,4 +349,53 @@ fn extra(cfg: &Cfg, stats: &mut Stats) {
             });
         }
     }
+}
+
+/// The source without the parentheses of every group that contains exactly one atom (identifier, `_`, literal):
+/// `( y )` -> `y`, `((name) : T)` -> `(name : T)`. None if there is no such group. Whether the result means the same
+/// is the caller's question (`same_desugared`).
+pub fn strip_atom_groups(src: &str) -> Option<String> {
+    let tokens: Vec<scan::Token> = scan::scan(src).into_iter().filter(|t| t.is_code()).collect();
+    let text = |t: &scan::Token| &src[t.start..t.end];
+    let mut drop: Vec<(usize, usize)> = Vec::new();
+    // the arguments of metadata (`@[format(width(100))]`) are not groups
+    let mut in_meta = vec![false; tokens.len()];
+    let mut depth: Option<usize> = None;
+    for i in 0..tokens.len() {
+        let t = text(&tokens[i]);
+        if let Some(d) = depth {
+            in_meta[i] = true;
+            match t {
+                | "(" | "[" => depth = Some(d + 1),
+                | ")" | "]" => depth = if d <= 1 { None } else { Some(d - 1) },
+                | _ => {}
+            }
+        } else if t == "@" && i + 1 < tokens.len() && matches!(text(&tokens[i + 1]), "(" | "[") {
+            depth = Some(0);
+            in_meta[i] = true;
+        }
+    }
+    for (i, w) in tokens.windows(3).enumerate() {
+        let atom = mutate::is_atom(&w[1]) || text(&w[1]) == "_";
+        if text(&w[0]) == "(" && text(&w[2]) == ")" && atom && !in_meta[i] {
+            drop.push((w[0].start, w[0].end));
+            drop.push((w[2].start, w[2].end));
+        }
+    }
+    if drop.is_empty() {
+        return None;
+    }
+    let mut out = String::with_capacity(src.len());
+    let mut at = 0;
+    for (from, to) in drop {
+        if from < at {
+            continue;
+        }
+        out.push_str(&src[at..from]);
+        // keep tokens apart where the parenthesis did
+        out.push(' ');
+        at = to;
+    }
+    out.push_str(&src[at..]);
+    Some(out)
 }
